@@ -36,10 +36,11 @@ class Rope:
 class SymSeq:
     """Abstract immutable/mutable sequence (list/tuple) of symbolic length with elements of one shape.
     elem(i) gives the i-th element value."""
-    __slots__ = ("length", "elem", "name")
+    __slots__ = ("length", "elem", "name", "fn")
 
-    def __init__(self, length, elem, name="seq"):
-        self.length, self.elem, self.name = length, elem, name
+    def __init__(self, length, elem, name="seq", fn=None):
+        # fn: optional z3 function Int -> element term (enables membership tests as quantified formulas)
+        self.length, self.elem, self.name, self.fn = length, elem, name, fn
 
 
 class Ext:
